@@ -1193,3 +1193,288 @@ Section Witnesses.
   Example wf_example_repeated_names : wf_tmpl R1_t = true /\ linear R1_t = false.
   Proof. split; reflexivity. Qed.
 End Witnesses.
+
+(* ---------------------------------------------------------------------------------------------- *)
+(* T12.6 search.  (a) ast_walk enumerates exactly the descendants *)
+
+Fixpoint desc (d : nat) (n r : value) : Prop :=
+  match d with
+  | 0 => n = r
+  | S d' => exists c, In c (children r) /\ desc d' n c
+  end.
+
+Definition subnode (n root : value) : Prop := exists d, desc d n root.
+
+Lemma levels_nil f : levels f [] = [].
+Proof. destruct f; reflexivity. Qed.
+
+Lemma in_levels f : forall nodes n,
+  In n (levels f nodes) <-> exists d r, d < f /\ In r nodes /\ desc d n r.
+Proof.
+  induction f as [|f IH]; intros nodes n; simpl.
+  - split; [intros []|intros (d & r & Hd & _); lia].
+  - destruct nodes as [|x nodes].
+    + split; [intros []|intros (d & r & _ & [] & _)].
+    + remember (x :: nodes) as ns. rewrite in_app_iff, IH. split.
+      * intros [Hin|(d & c & Hd & Hc & Hdesc)].
+        -- exists 0, n. split; [lia|]. split; [exact Hin|reflexivity].
+        -- apply in_flat_map in Hc as (r & Hr & Hc). exists (S d), r. split; [lia|]. split; [exact Hr|].
+           exists c. split; auto.
+      * intros (d & r & Hd & Hr & Hdesc). destruct d as [|d]; simpl in Hdesc.
+        -- subst. now left.
+        -- destruct Hdesc as (c & Hc & Hdesc). right. exists d, c. split; [lia|]. split; [|exact Hdesc].
+           apply in_flat_map. exists r. auto.
+Qed.
+
+Lemma fold_max_in {X} (g : X -> nat) x l :
+  In x l -> g x <= fold_right (fun y acc => Nat.max (g y) acc) 0 l.
+Proof.
+  induction l as [|y l IH]; simpl; [contradiction|]. intros [->|Hin]; [lia|]. specialize (IH Hin). lia.
+Qed.
+
+Lemma height_pos v : 1 <= height v.
+Proof. destruct v; simpl; lia. Qed.
+
+Lemma child_height c r : In c (children r) -> height c < height r.
+Proof.
+  destruct r as [k tg fs | |]; simpl; try contradiction.
+  intros Hin. apply in_flat_map in Hin as (fv & Hfv & Hc).
+  pose proof (fold_max_in (fun fv => height (snd fv)) fv fs Hfv) as Hle. simpl in Hle.
+  destruct (snd fv) as [k' tg' fs' | k' l |] eqn:E; simpl in Hc.
+  - destruct Hc as [<-|[]]. simpl in *. lia.
+  - apply filter_In in Hc as [Hc _].
+    pose proof (fold_max_in height c l Hc) as Hle'. simpl in Hle. lia.
+  - contradiction.
+Qed.
+
+Lemma desc_height d : forall n r, desc d n r -> d < height r.
+Proof.
+  induction d as [|d IH]; intros n r H; simpl in H.
+  - pose proof (height_pos r). lia.
+  - destruct H as (c & Hc & Hd). apply IH in Hd. apply child_height in Hc. lia.
+Qed.
+
+Theorem ast_walk_spec root n : In n (ast_walk root) <-> subnode n root.
+Proof.
+  unfold ast_walk, subnode. rewrite in_levels. split.
+  - intros (d & r & _ & [<-|[]] & Hd). eauto.
+  - intros (d & Hd). exists d, root. split; [now apply desc_height in Hd|]. split; [now left|exact Hd].
+Qed.
+
+(* (b) walk_wildcard for one template: exactly the walked nodes of an admitted concrete type that
+   match, reported once per node identity *)
+
+Definition admits (t : tmpl) (g : tag) : Prop :=
+  match head_tags t with None => True | Some tags => In g tags end.
+
+Lemma tags_in_order_spec nodes : forall seen g,
+  In g (tags_in_order seen nodes) <-> (exists n, In n nodes /\ vtag n = g) /\ ~ In g seen.
+Proof.
+  induction nodes as [|x nodes IH]; intros seen g; simpl.
+  - split; [intros []|intros [(n & [] & _) _]].
+  - destruct (existsb (String.eqb (vtag x)) seen) eqn:E.
+    + apply existsb_eqb_in in E. rewrite IH. split.
+      * intros [(n & Hn & Hg) Hs]. split; auto. exists n. auto.
+      * intros [(n & [<-|Hn] & Hg) Hs]; [subst; contradiction|]. split; auto. exists n. auto.
+    + assert (Hns : ~ In (vtag x) seen).
+      { intros Hin. apply existsb_eqb_in in Hin. congruence. }
+      simpl. rewrite IH. split.
+      * intros [<-|[(n & Hn & Hg) Hs]].
+        -- split; auto. exists x. auto.
+        -- split; [exists n; auto|]. intros Hin. apply Hs. now right.
+      * intros [(n & [<-|Hn] & Hg) Hs]; [now left|].
+        destruct (string_dec (vtag x) g) as [He|He]; [now left|]. right. split; [exists n; auto|].
+        intros [Hin|Hin]; auto.
+Qed.
+
+Lemma candidates_spec all t n :
+  let groups := match head_tags t with
+                | None => tags_in_order [] all
+                | Some tags => filter (fun g => existsb (String.eqb g) tags) (tags_in_order [] all)
+                end in
+  In n (flat_map (fun g => nodes_of_tag g all) groups) <-> In n all /\ admits t (vtag n).
+Proof.
+  intros groups. rewrite in_flat_map. unfold nodes_of_tag, admits. subst groups. split.
+  - intros (g & Hg & Hn). apply filter_In in Hn as [Hn E]. apply String.eqb_eq in E. subst g.
+    split; auto. destruct (head_tags t) as [tags|]; auto.
+    apply filter_In in Hg as [_ Hg]. now apply existsb_eqb_in.
+  - intros [Hn Ha]. exists (vtag n). split.
+    + destruct (head_tags t) as [tags|].
+      * apply filter_In. split; [|now apply existsb_eqb_in].
+        apply tags_in_order_spec. split; [exists n; auto|intros []].
+      * apply tags_in_order_spec. split; [exists n; auto|intros []].
+    + apply filter_In. split; auto. apply String.eqb_refl.
+Qed.
+
+Section WalkFold.
+  Variables (t : tmpl) (yielded : list value).
+  Definition wstep (acc : list (value * result)) (n : value) : list (value * result) :=
+    if existsb (same_node n) (yielded ++ map fst acc) then acc
+    else match match_tmpl t n with Some r => acc ++ [(n, r)] | None => acc end.
+
+  Lemma wfold_mono nodes : forall acc x, In x acc -> In x (fold_left wstep nodes acc).
+  Proof.
+    induction nodes as [|n nodes IH]; intros acc x Hx; simpl; auto.
+    apply IH. unfold wstep. destruct (existsb _ _); auto.
+    destruct (match_tmpl t n); auto. apply in_or_app. now left.
+  Qed.
+
+  Lemma wfold_sound nodes : forall acc n r,
+    In (n, r) (fold_left wstep nodes acc) ->
+    In (n, r) acc \/ (In n nodes /\ match_tmpl t n = Some r).
+  Proof.
+    induction nodes as [|x nodes IH]; intros acc n r H; simpl in *; auto.
+    apply IH in H as [H|[H1 H2]]; [|right; auto].
+    unfold wstep in H. destruct (existsb _ _); auto.
+    destruct (match_tmpl t x) as [rx|] eqn:E; auto.
+    apply in_app_or in H as [H|[H|[]]]; auto. injection H as <- <-. right. auto.
+  Qed.
+
+  Lemma wfold_complete nodes : forall acc n r,
+    In n nodes -> match_tmpl t n = Some r ->
+    (exists n', In n' yielded /\ same_node n n' = true) \/
+    (exists n' r', In (n', r') (fold_left wstep nodes acc) /\ ((n', r') = (n, r) \/ same_node n n' = true)).
+  Proof.
+    induction nodes as [|x nodes IH]; intros acc n r Hin Hm; simpl in *; [contradiction|].
+    destruct Hin as [->|Hin]; [|eauto].
+    unfold wstep at 2. destruct (existsb (same_node n) (yielded ++ map fst acc)) eqn:E.
+    - apply existsb_exists in E as (n' & Hn' & Hs). apply in_app_or in Hn' as [Hy|Ha].
+      + left. eauto.
+      + right. apply in_map_iff in Ha as ([n'' r'] & <- & Ha). exists n'', r'. split; auto.
+        now apply wfold_mono.
+    - rewrite Hm. right. exists n, r. split; auto. apply wfold_mono. apply in_or_app. right. now left.
+  Qed.
+End WalkFold.
+
+Lemma walk_one_eq all t y :
+  walk_one all t y =
+    fold_left (wstep t y)
+      (flat_map (fun g => nodes_of_tag g all)
+         (match head_tags t with
+          | None => tags_in_order [] all
+          | Some tags => filter (fun g => existsb (String.eqb g) tags) (tags_in_order [] all)
+          end)) [].
+Proof. reflexivity. Qed.
+
+Theorem walk_one_sound all t y n r :
+  In (n, r) (walk_one all t y) -> In n all /\ admits t (vtag n) /\ match_tmpl t n = Some r.
+Proof.
+  rewrite walk_one_eq. intros H. apply wfold_sound in H as [[]|[H1 H2]].
+  apply candidates_spec in H1 as [H1 H3]. auto.
+Qed.
+
+Theorem walk_one_complete all t y n r :
+  In n all -> admits t (vtag n) -> match_tmpl t n = Some r ->
+  (exists n', In n' y /\ same_node n n' = true) \/
+  (exists n' r', In (n', r') (walk_one all t y) /\ ((n', r') = (n, r) \/ same_node n n' = true)).
+Proof.
+  intros H1 H2 H3. rewrite walk_one_eq. apply wfold_complete; auto. apply candidates_spec. auto.
+Qed.
+
+(* the search for an expression / statement pattern (a node template) *)
+Theorem walk_wildcard_node_sound root tg fs n r :
+  In (n, r) (walk_wildcard root (TNode tg fs)) ->
+  subnode n root /\ vtag n = tg /\ match_tmpl (TNode tg fs) n = Some r.
+Proof.
+  intros H. apply walk_one_sound in H as (H1 & H2 & H3). apply ast_walk_spec in H1.
+  unfold admits in H2. simpl in H2. destruct H2 as [H2|[]]. auto.
+Qed.
+
+Theorem walk_wildcard_node_complete root tg fs n r :
+  subnode n root -> match_tmpl (TNode tg fs) n = Some r ->
+  exists n' r', In (n', r') (walk_wildcard root (TNode tg fs)) /\ ((n', r') = (n, r) \/ same_node n n' = true).
+Proof.
+  intros H1 H2. apply ast_walk_spec in H1.
+  assert (Ha : admits (TNode tg fs) (vtag n)).
+  { unfold admits. simpl. left. simpl in H2. destruct n as [k tg' nfs | |]; try discriminate.
+    simpl. destruct (String.eqb tg tg') eqn:E; [|discriminate]. now apply String.eqb_eq in E. }
+  destruct (walk_one_complete (ast_walk root) (TNode tg fs) [] n r H1 Ha H2) as [(n' & [] & _)|H]; exact H.
+Qed.
+
+(* a bare wildcard at top level is never found (known finding F12-3) *)
+Theorem walk_wildcard_bare_wildcard root n c t : walk_wildcard root (TWild n c t) = [].
+Proof.
+  unfold walk_wildcard. rewrite walk_one_eq. simpl.
+  assert (H : forall l : list tag, filter (fun _ => false) l = []) by (induction l; auto).
+  now rewrite H.
+Qed.
+
+(* (c) statement sequences: windows are exactly the contiguous sub-lists of the given length *)
+
+Lemma windows_spec {X} k (l w : list X) :
+  1 <= k -> (In w (windows k l) <-> List.length w = k /\ exists pre post, l = pre ++ w ++ post).
+Proof.
+  intros Hk. induction l as [|a l IH]; simpl.
+  - split; [intros []|]. intros [Hl (pre & post & H)].
+    symmetry in H. apply app_eq_nil in H as [_ H]. apply app_eq_nil in H as [-> _]. simpl in Hl. lia.
+  - destruct (k <=? S (List.length l)) eqn:E.
+    + apply Nat.leb_le in E. simpl. rewrite IH. split.
+      * intros [<-|[Hl (pre & post & ->)]].
+        -- split; [apply (firstn_length_le (a :: l)); simpl; lia|].
+           exists [], (skipn k (a :: l)). simpl. now rewrite (firstn_skipn k (a :: l)).
+        -- split; auto. exists (a :: pre), post. reflexivity.
+      * intros [Hl (pre & post & H)]. destruct pre as [|b pre]; simpl in H.
+        -- left. rewrite H, <- Hl. rewrite firstn_app, Nat.sub_diag, firstn_all. simpl.
+           now rewrite app_nil_r.
+        -- injection H as <- ->. right. split; auto. eauto.
+    + apply Nat.leb_gt in E. split; [intros []|]. intros [Hl (pre & post & H)].
+      apply (f_equal (@List.length X)) in H. simpl in H. rewrite !app_length in H. lia.
+Qed.
+
+Theorem walk_sequence_spec order root ts w b :
+  In (w, b) (walk_sequence order root ts) <->
+  exists sc body rs,
+    In sc (map fst (walk_wildcard root (TOr (map (fun g => TType [g]) order)))) /\
+    In body (bodies sc) /\ In w (windows (List.length ts) body) /\
+    zip_match ts w = Some rs /\ merge_all [] (map Some rs) = Some b.
+Proof.
+  unfold walk_sequence. rewrite in_flat_map. split.
+  - intros (sc & Hsc & H). apply in_flat_map in H as (body & Hb & H).
+    apply in_flat_map in H as (w' & Hw & H).
+    destruct (zip_match ts w') as [rs|] eqn:Z; [|contradiction].
+    destruct (merge_all [] (map Some rs)) as [b'|] eqn:M; [|contradiction].
+    destruct H as [H|[]]. injection H as <- <-. exists sc, body, rs. auto.
+  - intros (sc & body & rs & Hsc & Hb & Hw & Z & M). exists sc. split; auto.
+    apply in_flat_map. exists body. split; auto. apply in_flat_map. exists w. split; auto.
+    rewrite Z, M. now left.
+Qed.
+
+(* the scopes whose bodies are searched are walked nodes of the listed kinds only *)
+Lemma walk_or_sound all ts : forall acc n r,
+  In (n, r) (fold_left (fun acc t' => acc ++ walk_one all t' (map fst acc)) ts acc) ->
+  In (n, r) acc \/ exists t', In t' ts /\ In n all /\ admits t' (vtag n) /\ match_tmpl t' n = Some r.
+Proof.
+  induction ts as [|t ts IH]; intros acc n r H; simpl in *; auto.
+  apply IH in H as [H|(t' & Ht' & H)]; [|right; exists t'; auto].
+  apply in_app_or in H as [H|H]; auto.
+  apply walk_one_sound in H. right. exists t. auto.
+Qed.
+
+Theorem walk_sequence_scopes order root sc :
+  In sc (map fst (walk_wildcard root (TOr (map (fun g => TType [g]) order)))) ->
+  subnode sc root /\ In (vtag sc) order.
+Proof.
+  intros H. apply in_map_iff in H as ([n r] & <- & H). simpl.
+  unfold walk_wildcard in H. apply walk_or_sound in H as [[]|(t' & Ht' & Hn & Ha & _)].
+  apply in_map_iff in Ht' as (g & <- & Hg). unfold admits in Ha. simpl in Ha.
+  destruct Ha as [<-|[]]. split; auto. now apply ast_walk_spec.
+Qed.
+
+(* the kinds of blocks whose bodies are searched, against the regenerated constants of /repo:
+   modules, definitions and if/for/while/with blocks -- and nothing else (no try/finally/match) *)
+Require Import PyrefactGen.Tables.
+
+Definition body_kinds : list tag := AST_TYPES_WITH_BODY ++ AST_TYPES_WITH_ORELSE.
+Definition stated_kinds : list tag :=
+  ["Module"; "FunctionDef"; "AsyncFunctionDef"; "ClassDef"; "If"; "For"; "While"; "With"]%string.
+
+Lemma incl_bool (l1 l2 : list tag) :
+  forallb (fun g => existsb (String.eqb g) l2) l1 = true -> incl l1 l2.
+Proof.
+  intros H g Hg. rewrite forallb_forall in H. apply existsb_eqb_in. auto.
+Qed.
+
+Theorem body_kinds_spec : forall g, In g body_kinds <-> In g stated_kinds.
+Proof.
+  intros g. split; apply incl_bool; vm_compute; reflexivity.
+Qed.
